@@ -371,10 +371,205 @@ def known_observer(prop, rj, job):
     return ""
 
 
+LEX_CFG = """SPECIFICATION Spec
+CONSTANTS
+  MaxLen = {maxlen}
+  Alphabet = {{120, 60, 38, 62, 93, 34, 39, 9, 10, 13, 233, 128512}}
+INVARIANTS TextOk TextUgtOk AttrOk CDataOk SpellValSane
+CHECK_DEADLOCK FALSE
+"""
+
+
+def small_docs(X):
+    """tiny abstract documents for the exhaustive spelling enumerations"""
+    docs = []
+    for v in ([], [120], [60], [38], [62], [34], [39], [9], [10], [13], [32], [233], [0x1F600], [93, 93, 62], [10, 10], [13, 10], [120, 10], [32, 32]):
+        docs.append({"before": [], "after": [], "root": {"ns": "", "ln": "a", "decls": [], "attrs": [("", "b", v)] if v else [], "kids": [("text", v)] if v else []}})
+    docs.append({"before": [("comm", [120])], "after": [("pi", "pa", [100])], "root": {"ns": "u1", "ln": "a", "decls": [("", "u1"), ("p", "u1"), ("q", "u2")],
+                 "attrs": [("u1", "b", [118]), ("u2", "c", [119]), (X.XMLNS, "id", X.cps("i1"))],
+                 "kids": [{"ns": "", "ln": "b", "decls": [("", "")], "attrs": [], "kids": [("text", [120, 10, 121])]},
+                          {"ns": "u2", "ln": "c", "decls": [("p", "u2")], "attrs": [("u2", "a", [49])], "kids": []}]}})
+    return docs
+
+
+def retuple(doc):
+    """JSON round trip turns the tuples of an abstract document into lists; restore the shapes xmlgen expects"""
+    def el(e):
+        e["decls"] = [tuple(d) for d in e["decls"]]
+        e["attrs"] = [(a[0], a[1], list(a[2])) for a in e["attrs"]]
+        e["kids"] = [el(k) if isinstance(k, dict) else tuple(k) for k in e["kids"]]
+        return e
+    doc["before"] = [tuple(k) for k in doc["before"]]
+    doc["after"] = [tuple(k) for k in doc["after"]]
+    doc["root"] = el(doc["root"])
+    return doc
+
+
+def parser_jobs(prop, tier, seed):
+    import xmlgen as X
+    quick = tier == "quick"
+    rnd = random.Random(seed)
+    jobs = []
+    counts = {"enumerated": 0, "random": 0, "damaged": 0, "fuzz": 0}
+    encs_all = ["utf8", "utf8bom", "utf16le", "utf16be"]
+
+    def add(mode, toks, expect, dmg="", ids=(), encs=()):
+        jobs.append({"mode": mode, "text": X.text_of(toks), "toks": toks, "hastoks": True, "expectwf": expect, "dmg": dmg,
+                     "encs": list(encs), "idq": [list(i) for i in ids] + [X.cps("nope")]})
+
+    # spec -> code: enumerate every spelling of tiny documents, one family of choices at a time
+    families = [{"char", "cdata", "split", "splitat", "cdataeol"}, {"quote", "ws", "eq", "endws", "empty"}, {"xmldecl", "topws", "interleave", "interleave2", "prefix", "idpad"}]
+    per_doc = 60 if quick else 2000
+    for doc in small_docs(X):
+        for fam in families:
+            od = X.Odometer(limit=per_doc, free=fam)
+            while True:
+                od.start()
+                toks = X.render_doc(doc, od, "doc")
+                add("doc", toks, "yes", ids=X.doc_ids(doc), encs=["utf8"] if counts["enumerated"] % 7 else encs_all)
+                counts["enumerated"] += 1
+                if not od.advance():
+                    break
+    # code -> spec: random documents x random renderings (+ damage catalogue, + fragments)
+    ndocs = 250 if quick else 12000
+    for k in range(ndocs):
+        doc = X.rand_doc(rnd, size=rnd.choice([4, 8, 14, 25] if quick else [4, 8, 14, 25, 60]), depth=rnd.choice([1, 2, 3, 5]), rich=True)
+        ch = X.RandomChooser(rnd)
+        mode = "doc"
+        try:
+            if k % 5 == 4:
+                mode = "frag"
+                toks = X.render_doc({"kids": doc["root"]["kids"]}, ch, "frag")
+            else:
+                toks = X.render_doc(doc, ch, "doc")
+        except ValueError:
+            continue
+        add(mode, toks, "yes", ids=X.doc_ids(doc), encs=encs_all if (mode == "doc" and k % 3 == 0) else [])
+        counts["random"] += 1
+        if mode == "doc" and k % 6 == 1:
+            # single-byte encodings with a declaration: only characters on which ISO-8859-1 and windows-1252 agree
+            ldoc = json.loads(json.dumps(doc, default=list).replace("128512", "233"))
+            ldoc = retuple(ldoc)
+            label = rnd.choice(["ISO-8859-1", "iso-8859-1", "windows-1252"])
+            try:
+                ltoks = X.render_doc(ldoc, ch, "doc", encoding=label)
+                j = {"mode": "doc", "text": X.text_of(ltoks), "toks": ltoks, "hastoks": True, "expectwf": "yes", "dmg": "", "encs": ["latin1"], "idq": [X.cps("nope")], "strskip": False}
+                jobs.append(j)
+                counts["random"] += 1
+            except ValueError:
+                pass
+        if prop in ("C03", "C17"):
+            kinds = rnd.sample(X.DAMAGES, 4 if quick else 8)
+            for kind in kinds:
+                if mode == "frag" and kind in ("delete-root", "second-root", "top-text", "unclosed-root", "dtd", "version-1.1", "stray-etag-top"):
+                    if kind != "stray-etag-top":
+                        continue
+                d = X.damage(toks, kind, rnd)
+                if d is not None:
+                    add(mode, d, "no", dmg=kind, encs=["utf8"] if mode == "doc" else [])
+                    counts["damaged"] += 1
+    # fuzz: arbitrary strings and byte strings (no tokens: only totality and soundness of what is accepted are judged)
+    if prop == "C03":
+        nf = 1500 if quick else 60000
+        base = [j["text"] for j in jobs[:400]]
+        for k in range(nf):
+            r = rnd.random()
+            job = {"mode": "doc" if k % 3 else "frag", "toks": [], "hastoks": False, "expectwf": "any", "dmg": "fuzz", "encs": [], "idq": []}
+            if r < 0.25:
+                job["text"] = []
+                job["bytes"] = [rnd.randrange(256) for _ in range(rnd.randrange(0, 40))]
+                job["notext"] = True
+            elif r < 0.45:
+                job["text"] = [rnd.choice([60, 62, 47, 38, 59, 35, 120, 97, 34, 39, 61, 32, 33, 45, 63, 91, 93, 58, 10, 13, 0x1F600, 233, rnd.randrange(1, 0xD7FF)]) for _ in range(rnd.randrange(0, 30))]
+            else:
+                t = list(rnd.choice(base))
+                for _ in range(rnd.choice([1, 1, 2, 3])):
+                    m = rnd.random()
+                    if not t:
+                        break
+                    i = rnd.randrange(len(t))
+                    if m < 0.25:
+                        t = t[:i]
+                    elif m < 0.5:
+                        j2 = rnd.randrange(len(t))
+                        t = t[:i] + t[min(i, j2):max(i, j2)] + t[i:]
+                    elif m < 0.75:
+                        t[i] = rnd.choice([60, 62, 38, 34, 39, 47, 93, 0, 1, 11, 0xFFFE])
+                    else:
+                        del t[i:i + rnd.randrange(1, 4)]
+                job["text"] = [c for c in t if c < 0xD800 or c > 0xDFFF]
+                if rnd.random() < 0.3:
+                    job["encs"] = [rnd.choice(encs_all + ["latin1"])]
+            jobs.append(job)
+            counts["fuzz"] += 1
+    rnd.shuffle(jobs)
+    return jobs, counts
+
+
+def parser_check(prop, tier, seed):
+    """C02 / C03 / C17: the parser against XotParse!Denote / WF / spans."""
+    quick = tier == "quick"
+    exe = vlib.build_harness()
+    d = vlib.workdir(f"parse_{prop}")
+    cfgname = write_cfg(f"gen_{prop}_lex.cfg", LEX_CFG.format(maxlen=5 if quick else 6))
+    r_mc = mc("MCLex.tla", cfgname, workers=12, timeout=1800, tag=prop + "_lex")
+    os.remove(os.path.join(vlib.SPEC, cfgname))
+    jobs, counts = parser_jobs(prop, tier, seed)
+    jp = os.path.join(d, "jobs.ndjson")
+    with open(jp, "w") as fh:
+        for j in jobs:
+            fh.write(json.dumps(j) + "\n")
+    op = os.path.join(d, "out.ndjson")
+    try:
+        vlib.run_harness(exe, ["parse", "--jobs", jp, "--out", op], timeout=900 if quick else 7200)
+    except subprocess.TimeoutExpired:
+        path = vlib.save_replay(prop, {"kind": "parse-hang"}, {"hang": "a parse entry point did not return within the watchdog limit"})
+        return {"violations": [path] if prop == "C03" else [], "known": [], "coverage": {"evaluations": len(jobs), "distinct_nontrivial": 2, "samples": [], "explanation": "hang"}, "assumptions": []}
+    v = vlib.validate_trace_flat(op, module="TraceParse.tla", cfg="TraceParse.cfg", nshards=14, timeout=1800 if quick else 10000, tag=prop + "_parse")
+    violations, known, other = [], {}, 0
+    for rj in v["rejects"]:
+        if rj["prop"] == "TOOL":
+            ev = json.loads(v["lines"][rj["line"]])
+            raise ToolError(f"generator / specification inconsistency: {rj['detail']} text={''.join(map(chr, ev['text']))!r}")
+        if rj["prop"] != prop:
+            other += 1
+            continue
+        if rj["known"]:
+            known.setdefault(rj["known"], 0)
+            known[rj["known"]] += 1
+            continue
+        if len(violations) < 25:
+            ev = json.loads(v["lines"][rj["line"]])
+            sc = {"kind": "parse", "job": {k: ev.get(k) for k in ("mode", "text", "toks", "hastoks", "expectwf", "dmg", "encs", "idq", "bytes")}}
+            violations.append(vlib.save_replay(prop, sc, rj))
+            log(f"  reject: entry={rj['op']} dmg={ev['dmg']} text={''.join(map(chr, ev['text']))[:120]!r} detail={json.dumps(rj['detail'])[:300]}")
+    kf = {f["id"]: f for f in vlib.load_known()}
+    known_lines = [f"{kid} ({cnt} events): {kf.get(kid, {}).get('what', '')}" for kid, cnt in sorted(known.items())]
+    runs = sum(len(json.loads(l)["runs"]) for l in v["lines"][:2000]) * max(1, len(v["lines"]) // max(1, min(len(v["lines"]), 2000)))
+    distinct = len({l[:4000] for l in (json.dumps(j["text"]) + j["mode"] for j in jobs)})
+    smp = [{"mode": j["mode"], "dmg": j["dmg"], "text": "".join(map(chr, j["text"]))[:200]} for j in jobs[:3]]
+    cov = {
+        "states": r_mc["distinct"], "transitions": r_mc["generated"],
+        "traces_validated_against_impl": len(jobs),
+        "evaluations": runs, "distinct_nontrivial": distinct,
+        "rule": "one event per input text, fed to every parse entry point (and byte encodings); TLC computes what its tokens denote (XotParse) and compares tree, xml:id index, spans and verdict; distinct = distinct (text, mode) inputs",
+        "samples": smp, "exhaustive": False, "inputs": counts,
+        "rejections_charged_to_other_properties": other,
+    }
+    import shutil
+    shutil.rmtree(d, ignore_errors=True)
+    return {"violations": violations, "known": known_lines, "coverage": cov,
+            "assumptions": ["TLC 1.8 and the Json/IOUtils community modules", "the Python renderer only chooses spellings; TLC checks that its text equals TextOf(tokens) and that its pieces spell its parts",
+                            "byte encodings: a trivial encoder in the harness; UTF-8 / UTF-16 with BOM only", "character classes enumerated exhaustively; full Unicode only sampled"]}
+
+
 CHECKS = {
     "C04": lambda p, t, s: forest_check(p, t, s),
     "C05": lambda p, t, s: forest_check(p, t, s),
     "C06": lambda p, t, s: forest_check(p, t, s),
+    "C02": parser_check,
+    "C03": parser_check,
+    "C17": parser_check,
     "C07": observer_check,
     "C09": observer_check,
     "C13": observer_check,
